@@ -1,4 +1,47 @@
-(* C05 — placeholder while the check is wired; replaced in this session *)
+(* C05 — automatic discovery never reports a signature the function cannot honour
+   (the part that is logic: the walker's flags and what discovery builds from them). *)
 From Sigtools.Model Require Import Base Bind Algebra Visitor Discover.
-Theorem C05_placeholder : True. Proof. exact I. Qed.
-Print Assumptions C05_placeholder.
+From Sigtools.Proofs Require Import SmallModel Basics Discover.
+
+(* use_varargs / use_varkwargs is emitted only when the star argument of the
+   call IS the wrapper's own star-parameter marker (object identity) *)
+Theorem C05_use_flag_identity found original :
+  fst (has_hide found original) = true ->
+  exists u n n', found = Some (MArg u n) /\ original = Some (MArg u n').
+Proof. exact (use_flag_identity found original). Qed.
+Print Assumptions C05_use_flag_identity.
+
+(* a marker tainted by a method call on it is never handed out as pristine *)
+Theorem C05_tainted_not_pristine st u n :
+  existsb (Nat.eqb u) (v_taint st) = true -> get_untainted st (MArg u n) = MUnknown.
+Proof. exact (get_untainted_tainted st u n). Qed.
+Print Assumptions C05_tainted_not_pristine.
+
+Theorem C05_pristine_not_tainted st m u n :
+  get_untainted st m = MArg u n -> existsb (Nat.eqb u) (v_taint st) = false.
+Proof. exact (untainted_arg_not_tainted st m u n). Qed.
+Print Assumptions C05_pristine_not_tainted.
+
+(* use and hide exclude each other; a star argument yields exactly one of them *)
+Theorem C05_flags_exclusive found original :
+  let '(u, h) := has_hide found original in
+  (u && h = false) /\ (u || h = match found with Some _ => true | None => false end).
+Proof. exact (flags_exclusive found original). Qed.
+Print Assumptions C05_flags_exclusive.
+
+(* whatever the walker found, the reported signature is the plain one or went
+   through the validating constructor *)
+Theorem C05_plain_or_wf own plain have_ast calls :
+  discover own plain have_ast calls = plain \/
+  validate (params (discover own plain have_ast calls)) = true.
+Proof. exact (discover_total_wf own plain have_ast calls). Qed.
+Print Assumptions C05_plain_or_wf.
+
+(* soundness of a reported signature against its inputs is decided, for ALL
+   calls, by the extracted decider used on the implementation's outputs *)
+Theorem C05_decider_complete r inputs :
+  sound_cex r inputs = None ->
+  forall c, noncolliding c r inputs = true -> accepts r c = true ->
+            forallb (fun s => accepts s c) inputs = true.
+Proof. exact (sound_cex_complete r inputs). Qed.
+Print Assumptions C05_decider_complete.
